@@ -625,11 +625,79 @@ package router
 //@ func (r *router) initCache(cfg *CacheConfig) (c *cacheCtl, err error)
 //@   trusted
 //@   modifies nothing
-//@   ensures err == nil ==> c != nil && c.logger != nil
+//@   ensures err == nil ==> c != nil && c.logger != nil && (c.memory == nil || memOK(c.memory))
+// startServer: one listener per configured protocol; "tls" and "https" start the TLS variants; an unknown
+// protocol is an error; a closer is returned exactly when a listener was started.
 //@ func (r *router) startServer(cfg *ServerConfig) (closer func(), err error)
+//@   props C17 C18
+//@   requires routerReady(r) && cfg != nil
+//@   modifies nothing
+//@   ensures [C18:closer-iff-started] (err == nil) == (closer != nil)
+//@   callsite startTcpServer?: [C17:tls-listener-uses-tls] arg0 == r && arg1 == cfg && arg2 == (cfg.Protocol == "tls")
+//@   callsite startHttpServer?: [C17:https-listener-uses-tls] arg0 == r && arg1 == cfg && arg2 == (cfg.Protocol == "https")
+//@ func (r *router) startUdpServer(cfg *ServerConfig) (s *udpServer, err error)
 //@   trusted
 //@   modifies nothing
-//@   ensures (err == nil) == (closer != nil)
+//@   ensures (err == nil) == (s != nil)
+//@ func (r *router) startGnetServer(cfg *ServerConfig) (s *gnetServer, err error)
+//@   trusted
+//@   modifies nothing
+//@   ensures (err == nil) == (s != nil)
+//@ func (r *router) startFastHttpServer(cfg *ServerConfig) (s *fasthttp.Server, err error)
+//@   trusted
+//@   modifies nothing
+//@   ensures (err == nil) == (s != nil)
+//@ func (r *router) fatal(msg string, err error)
+//@   trusted
+//@   modifies nothing
+
+// startTcpServer (TCP and DoT): a TLS listener handshakes with the configuration makeTlsConfig built from this
+// server's TLS settings with "certificate required", a plain one has none; nothing is opened when that
+// configuration is bad; the per-connection limit is the configured one, 100 when unset.
+//@ func (r *router) startTcpServer(cfg *ServerConfig, useTls bool) (s *tcpServer, err error)
+//@   props C17 C18 C13
+//@   requires routerReady(r) && cfg != nil
+//@   ghost gTls *tls.Config = nil
+//@   ghost gTlsErr error = nil
+//@   ghost nListen int = 0
+//@   aftercall makeTlsConfig?: gTls = ret0
+//@   aftercall makeTlsConfig?: gTlsErr = ret1
+//@   oncall listen?: nListen = nListen + 1
+//@   modifies nothing
+//@   ensures (err == nil) == (s != nil)
+//@   ensures [C17:handshake-with-the-verified-configuration] err == nil ==> s.r == r && s.l != nil && s.logger != nil && s.tlsConfig == (useTls ? gTls : nil) && (useTls ==> gTls != nil)
+//@   ensures [C13:per-connection-limit] err == nil ==> s.maxConcurrent == (cfg.Tcp.MaxConcurrentQueries > 0 ? cfg.Tcp.MaxConcurrentQueries : 100)
+//@   ensures [C18:bad-certificate-opens-nothing] useTls && gTlsErr != nil ==> err != nil && nListen == 0
+//@   callsite makeTlsConfig?: [C17:listener-requires-certificate] useTls && arg0 == &cfg.Tls && arg1 == true
+//@ closure router.startTcpServer$1
+//@   props C18
+//@   requires s != nil && routerReady(s.r) && s.l != nil && s.logger != nil && l != nil
+//@   modifies *
+
+// startQuicServer (DoQ): the QUIC listener handshakes with the configuration makeTlsConfig built with
+// "certificate required"; when listening fails the UDP socket that was already opened is closed again.
+//@ func (r *router) startQuicServer(cfg *ServerConfig) (s *quicServer, err error)
+//@   props C17 C18
+//@   requires routerReady(r) && cfg != nil
+//@   ghost gTls *tls.Config = nil
+//@   ghost gLErr error = nil
+//@   ghost nTClose int = 0
+//@   ghost nLP int = 0
+//@   aftercall makeTlsConfig: gTls = ret0
+//@   oncall ListenPacket?: nLP = nLP + 1
+//@   aftercall Listen?: gLErr = ret1
+//@   oncall Transport.Close?: nTClose = nTClose + 1
+//@   modifies nothing
+//@   ensures (err == nil) == (s != nil)
+//@   ensures err == nil ==> s.r == r && s.l != nil && s.logger != nil
+//@   ensures [C18:socket-released-when-listen-fails] gLErr != nil ==> err != nil && nTClose == 1
+//@   ensures [C18:bad-certificate-opens-nothing] gTls == nil ==> err != nil && nLP == 0
+//@   callsite makeTlsConfig: [C17:listener-requires-certificate] arg0 == &cfg.Tls && arg1 == true
+//@   callsite Listen?: [C17:handshake-with-the-verified-configuration] arg1 == gTls && gTls != nil
+//@ closure router.startQuicServer$1
+//@   props C18
+//@   requires s != nil && routerReady(s.r) && s.l != nil && s.logger != nil && l != nil
+//@   modifies *
 // close runs closeImpl at most once (sync.Once); closeImpl calls every registered closer
 //@ func (r *router) close(err error)
 //@   trusted
@@ -650,6 +718,7 @@ package router
 //@   ensures [C10:every-rule-kept-in-order] err == nil ==> rr != nil && len(rr.rules) == len(cfg.Rules)
 //@             && forall(k, 0, len(cfg.Rules), ruleAsConfigured(rr, rr.rules[k], cfg.Rules[k].Reverse, cfg.Rules[k].Domain, cfg.Rules[k].Reject, cfg.Rules[k].Forward))
 //@   ensures [C18:startup-error-returns-no-router] err != nil ==> rr == nil
+//@   callsite startServer?: [C18:listeners-start-on-a-fully-initialised-router] routerReady(arg0)
 //@   loop 1:
 //@     modifies obj(r.upstreams)
 //@     invariant upstreamsOK(r)
@@ -657,10 +726,12 @@ package router
 //@     modifies obj(r.domainSets), field(domainmatcher.labelNode), field(domainmatcher.DomainMatcher), field(domainmatcher.RegexpMatcher), maps(domainmatcher.labelNode)
 //@   loop 3:
 //@     invariant len(r.rules) == rangeindex_3 + 1
+//@     invariant forall(k, 0, rangeindex_3 + 1, r.rules[k] != nil)
 //@     invariant forall(k, 0, rangeindex_3 + 1, ruleAsConfigured(r, r.rules[k], cfg.Rules[k].Reverse, cfg.Rules[k].Domain, cfg.Rules[k].Reject, cfg.Rules[k].Forward))
 //@   loop 4:
 //@     modifies r.serverClosers, obj(r.serverClosers)
 //@     invariant closersOK(r) && (loopFresh(r.serverClosers) || sameObj(r.serverClosers, loopOld(r.serverClosers)))
+//@     invariant routerReady(r)
 
 // ---- server_tcp_gnet_linux.go: reassembly of the length-prefixed stream (C13) -----------------------------
 //@ func getRequestContext() (rc *RequestContext)
